@@ -137,6 +137,30 @@ def tlc(module, cfg=None, *, workers=None, work=None, env=None, timeout=3600,
   return res
 
 
+def apalache(module, *, init, inv, length, cinit=None, work=None, timeout=900):
+  """Bounded symbolic check with Apalache (used for inductive invariants: init = any state satisfying
+  the invariant, length = 1).  Returns 'ok', 'violated' or 'error' plus the tool output."""
+  work = Path(work or (ROOT / ".work" / "apalache"))
+  out = work / f"apa_{module}_{inv}_{_uniq()}"
+  out.mkdir(parents=True, exist_ok=True)
+  cmd = ["apalache-mc", "check", f"--init={init}", f"--inv={inv}", f"--length={length}", f"--out-dir={out}"]
+  if cinit:
+    cmd.append(f"--cinit={cinit}")
+  cmd.append(str(SPEC / f"{module}.tla"))
+  try:
+    p = subprocess.run(cmd, cwd=work, capture_output=True, text=True, timeout=timeout)
+    text = p.stdout + p.stderr
+  except subprocess.TimeoutExpired:
+    return "error", "timeout"
+  finally:
+    shutil.rmtree(out, ignore_errors=True)
+  if "EXITCODE: OK" in text and "Checker reports no error" in text:
+    return "ok", text
+  if "Checker has found an error" in text or "invariant violation" in text.lower():
+    return "violated", text
+  return "error", text
+
+
 def tlc_must_pass(module, cfg=None, required_actions=(), **kw):
   """Exhaustive model checking run that must find no error; returns the result.
 
